@@ -39,9 +39,9 @@ def field_decl(fmt):
 from contracts.defscan import scan_definitions  # noqa: E402
 
 
-def equiv_contract(path, cname, names, fmts, n_required=None, tier="quick"):
-    decls = []
-    for fmt in fmts:
+def equiv_contract(path, cname, names, fmts, n_required=None, tier="quick", decls=None):
+    decls = list(decls) if decls else []
+    for fmt in ([] if decls else fmts):
         decls.extend([RANGE(0, 1)] * 8 if fmt == "bits" else [field_decl(fmt)])
     vars_ = {"D": EXPR(f"resolve_class({path + '::' + cname!r})")}
     for n, d in zip(names, decls):
@@ -89,6 +89,25 @@ _EXTRA = {"DefInt": (["a", "b"], ["I", "H"], 1), "DefStr": (["a", "s"], ["I", "v
           "Child": (["a", "b", "c"], ["I", "H", "Q"], 1)}
 for _cname, (_names, _fmts, _nreq) in _EXTRA.items():
     equiv_contract("contracts/c20_defs.py", _cname, _names, _fmts, _nreq)
+# fields that may be None (unset) with pack rules that give None a wire meaning: the rule is applied in both forms
+equiv_contract("contracts/c20_defs.py", "HookNone", ["flag", "n"], ["?", "I"], None, decls=[OPT(BOOL), OPT(INT)])
+
+
+def both_after(D0, D, args):
+    """HISTORY: another definition (same field names, same defaulted fields, other default values) was compiled first"""
+    vp_compile(clone_class(D0))
+    DC = vp_compile(clone_class(D))
+    return (D(*args), DC(*args), DC)
+
+
+for _first, _second in (("DefInt", "DefIntOther"), ("DefIntOther", "DefInt")):
+    contract(f"{LP}::_compile_init", f"defaults-are-per-definition[{_second} after {_first}]",
+             vars={"D0": EXPR(f"resolve_class('contracts/c20_defs.py::{_first}')"),
+                   "D": EXPR(f"resolve_class('contracts/c20_defs.py::{_second}')"), "v_a": INT},
+             call="both_after(D0, D, (v_a,))", raises=[],
+             ensures=["result[0].a == result[1].a", "result[0].b == result[1].b", "result[0].to_pack_list() == result[1].to_pack_list()",
+                      f"result[1].b == {11 if _second == 'DefIntOther' else 3}"],
+             note="the compiled constructor of a definition takes ITS OWN default values, whatever was compiled before it in the process")
 
 
 # ---------------------------------------------------------------------------------------------------------------------
